@@ -50,8 +50,11 @@ theorem signature_sign_ok_inv (sg : SigV) (s : Signer) (bprot : Bytes) (payload 
             simp only [ht] at hok
             cases hsg : s.sign tbs with
             | ok sig =>
-              refine ⟨p', tbs, sig, isNone_false_of_not hp, hb, rfl, ht, hsg, ?_⟩
-              simp [Signature.sign, hp, hg, hb, hgate, ht, hsg]
+              by_cases hz : sig.length = 0
+              · simp [hsg, hz] at hok
+              · refine ⟨p', tbs, sig, isNone_false_of_not hp, hb, rfl, ht, hsg, ?_⟩
+                simp only [Signature.sign, hp, hg, hb, hgate, ht, hsg, hz, if_false,
+                  Bool.false_eq_true, Bool.not_true]
             | err e => simp [hsg] at hok
             | panic => simp [hsg] at hok
             | unmodelled => simp [hsg] at hok
@@ -103,8 +106,10 @@ theorem countersignature_sign_ok_inv (cs : SigV) (s : Signer) (parent : Parent) 
         simp only [ht] at hok
         cases hsg : s.sign tbs with
         | ok sig =>
-          refine ⟨p', tbs, sig, rfl, ht, hsg, ?_⟩
-          simp [Countersignature.sign, hg, hgate, ht, hsg]
+          by_cases hz : sig.length = 0
+          · simp [hsg, hz] at hok
+          · refine ⟨p', tbs, sig, rfl, ht, hsg, ?_⟩
+            simp only [Countersignature.sign, hg, hgate, ht, hsg, hz, if_false]
         | err e => simp [hsg] at hok
         | panic => simp [hsg] at hok
         | unmodelled => simp [hsg] at hok
@@ -141,7 +146,15 @@ theorem countersign0_then_verify (s : Signer) (v : Verifier) (parent : Parent) (
   cases ht : countersignToBeSigned true parent [0x40] ext with
   | ok tbs =>
     simp only [ht] at hok ⊢
-    exact hm.correct tbs sig hok
+    cases hsg : s.sign tbs with
+    | ok sg =>
+      simp only [hsg] at hok
+      split at hok
+      · cases hok
+      · cases hok; exact hm.correct tbs _ hsg
+    | err e => simp [hsg] at hok
+    | panic => simp [hsg] at hok
+    | unmodelled => simp [hsg] at hok
   | err e => simp [ht] at hok
   | panic => simp [ht] at hok
   | unmodelled => simp [ht] at hok
@@ -153,7 +166,15 @@ theorem countersign0_nonempty (s : Signer) (v : Verifier) (parent : Parent) (ext
   cases ht : countersignToBeSigned true parent [0x40] ext with
   | ok tbs =>
     simp only [ht] at hok
-    exact hm.nonempty tbs sig hok
+    cases hsg : s.sign tbs with
+    | ok sg =>
+      simp only [hsg] at hok
+      split at hok
+      · cases hok
+      · cases hok; exact hm.nonempty tbs _ hsg
+    | err e => simp [hsg] at hok
+    | panic => simp [hsg] at hok
+    | unmodelled => simp [hsg] at hok
   | err e => simp [ht] at hok
   | panic => simp [ht] at hok
   | unmodelled => simp [ht] at hok
@@ -539,8 +560,10 @@ theorem sign1_sign_ok_inv (m : Sign1Msg) (ext : Option Bytes) (s : Signer)
           simp only [ht] at hok
           cases hsg : s.sign tbs with
           | ok sig =>
-            refine ⟨p', tbs, sig, isNone_false_of_not hp, rfl, ht, hsg, ?_⟩
-            simp [Sign1.sign, hp, hg, hgate, ht, hsg]
+            by_cases hz : sig.length = 0
+            · simp [hsg, hz] at hok
+            · refine ⟨p', tbs, sig, isNone_false_of_not hp, rfl, ht, hsg, ?_⟩
+              simp only [Sign1.sign, hp, hg, hgate, ht, hsg, hz, if_false, Bool.false_eq_true]
           | err e => simp [hsg] at hok
           | panic => simp [hsg] at hok
           | unmodelled => simp [hsg] at hok
@@ -622,7 +645,13 @@ theorem marshalUnprotected_sign1_state (m : Sign1Msg) (ext : Option Bytes) (s : 
       | ok p' =>
         simp only []
         cases Sign1.toBeSigned { m with h := { m.h with p := p' } } ext with
-        | ok tbs => simp only []; cases s.sign tbs <;> rfl
+        | ok tbs =>
+          simp only []
+          cases s.sign tbs with
+          | ok sig => simp only []; split <;> rfl
+          | err e => rfl
+          | panic => rfl
+          | unmodelled => rfl
         | err e => rfl
         | panic => rfl
         | unmodelled => rfl
@@ -968,5 +997,216 @@ example : ∃ b m2, Sign1.marshal true (Sign1.sign exM1 none exS7).state = .ok b
   exact sign1_wire_partial true exM1 none exS7 exV7 _ exSt exSV7 hok (by rw [hst]; exact henc) hdec
     (by decide) (by simp [exM1, blen])
     (by rw [hst]; exact hUwf_of_raw exH exU (by simp [exU, Wire.wf, Wire.wfPairs, HW.fits]) rfl)
+
+/-! ### sign-then-verify needs no assumption that signatures are non-empty (repair 9ac6635)
+
+`Matches` asks for `nonempty`: a signer that answers with no error and no bytes used to make `Sign`
+report success with an unsigned message, which no verifier accepts.  Every `Sign` now turns such
+an answer into `ErrEmptySignature`, so the signing functions cannot tell a signer from its
+"hardened" version that reports the error itself — and a hardened signer never returns an empty
+signature.  Hence every theorem of the form `Matches s v → P (sign … s)` holds under
+`MatchesCore s v` (algorithm and correctness only). -/
+
+/-- signer / verifier pair with matching keys; nothing assumed about the length of signatures -/
+structure MatchesCore (s : Signer) (v : Verifier) : Prop where
+  alg : v.alg = s.alg
+  correct : ∀ tbs sig, s.sign tbs = .ok sig → v.verify tbs sig = .ok ()
+
+theorem Matches.core {s : Signer} {v : Verifier} (h : Matches s v) : MatchesCore s v :=
+  ⟨h.alg, h.correct⟩
+
+/-- the signer that reports an empty answer as `ErrEmptySignature` itself -/
+def hardened (s : Signer) : Signer :=
+  { alg := s.alg,
+    sign := fun t => match s.sign t with
+      | .ok sig => if sig.length = 0 then .err .emptySig else .ok sig
+      | o => o }
+
+theorem MatchesCore.hardened {s : Signer} {v : Verifier} (h : MatchesCore s v) :
+    Matches (hardened s) v where
+  alg := h.alg
+  correct := by
+    intro tbs sig hs
+    simp only [C01.hardened] at hs
+    cases hsg : s.sign tbs with
+    | ok sg =>
+      simp only [hsg] at hs
+      split at hs
+      · cases hs
+      · cases hs; exact h.correct tbs _ hsg
+    | err e => simp [hsg] at hs
+    | panic => simp [hsg] at hs
+    | unmodelled => simp [hsg] at hs
+  nonempty := by
+    intro tbs sig hs
+    simp only [C01.hardened] at hs
+    cases hsg : s.sign tbs with
+    | ok sg =>
+      simp only [hsg] at hs
+      split at hs
+      · cases hs
+      · rename_i hz; cases hs; intro hn; exact hz (by rw [hn]; rfl)
+    | err e => simp [hsg] at hs
+    | panic => simp [hsg] at hs
+    | unmodelled => simp [hsg] at hs
+
+theorem sign1_sign_hardened (m : Sign1Msg) (ext : Option Bytes) (s : Signer) :
+    Sign1.sign m ext (hardened s) = Sign1.sign m ext s := by
+  unfold Sign1.sign
+  by_cases hp : m.payload.isNone
+  · simp [hp]
+  · by_cases hg : blen m.sig > 0
+    · simp [hp, hg]
+    · simp only [hp, hg, if_false, Bool.false_eq_true]
+      rw [show (hardened s).alg = s.alg from rfl]
+      cases ensureSigningAlgorithm m.h.rawP m.h.p s.alg ext with
+      | ok p' =>
+        simp only []
+        cases Sign1.toBeSigned { m with h := { m.h with p := p' } } ext with
+        | ok tbs =>
+          simp only [hardened]
+          cases s.sign tbs with
+          | ok sig => by_cases hz : sig.length = 0 <;> simp [hz]
+          | err e => rfl
+          | panic => rfl
+          | unmodelled => rfl
+        | err e => rfl
+        | panic => rfl
+        | unmodelled => rfl
+      | err e => rfl
+      | panic => rfl
+      | unmodelled => rfl
+
+theorem signature_sign_hardened (sg : SigV) (s : Signer) (bprot : Bytes)
+    (payload ext : Option Bytes) :
+    Signature.sign sg (hardened s) bprot payload ext = Signature.sign sg s bprot payload ext := by
+  unfold Signature.sign
+  by_cases hp : payload.isNone
+  · simp [hp]
+  · by_cases hg : blen sg.sig > 0
+    · simp [hp, hg]
+    · by_cases hb : bodyProtOK bprot
+      · simp only [hp, hg, hb, if_false, Bool.false_eq_true, Bool.not_true]
+        rw [show (hardened s).alg = s.alg from rfl]
+        cases ensureSigningAlgorithm sg.h.rawP sg.h.p s.alg ext with
+        | ok p' =>
+          simp only []
+          cases Signature.toBeSigned { sg with h := { sg.h with p := p' } } bprot payload ext with
+          | ok tbs =>
+            simp only [hardened]
+            cases s.sign tbs with
+            | ok sig => by_cases hz : sig.length = 0 <;> simp [hz]
+            | err e => rfl
+            | panic => rfl
+            | unmodelled => rfl
+          | err e => rfl
+          | panic => rfl
+          | unmodelled => rfl
+        | err e => rfl
+        | panic => rfl
+        | unmodelled => rfl
+      · simp [hp, hg, hb]
+
+theorem countersignature_sign_hardened (cs : SigV) (s : Signer) (parent : Parent)
+    (ext : Option Bytes) :
+    Countersignature.sign cs (hardened s) parent ext = Countersignature.sign cs s parent ext := by
+  unfold Countersignature.sign
+  by_cases hg : blen cs.sig > 0
+  · simp [hg]
+  · simp only [hg, if_false]
+    rw [show (hardened s).alg = s.alg from rfl]
+    cases ensureSigningAlgorithm cs.h.rawP cs.h.p s.alg ext with
+    | ok p' =>
+      simp only []
+      cases Countersignature.toBeSigned { cs with h := { cs.h with p := p' } } parent ext with
+      | ok tbs =>
+        simp only [hardened]
+        cases s.sign tbs with
+        | ok sig => by_cases hz : sig.length = 0 <;> simp [hz]
+        | err e => rfl
+        | panic => rfl
+        | unmodelled => rfl
+      | err e => rfl
+      | panic => rfl
+      | unmodelled => rfl
+    | err e => rfl
+    | panic => rfl
+    | unmodelled => rfl
+
+theorem countersign0_hardened (s : Signer) (parent : Parent) (ext : Option Bytes) :
+    countersign0 (hardened s) parent ext = countersign0 s parent ext := by
+  unfold countersign0
+  cases countersignToBeSigned true parent [0x40] ext with
+  | ok tbs =>
+    simp only [hardened]
+    cases s.sign tbs with
+    | ok sig => by_cases hz : sig.length = 0 <;> simp [hz]
+    | err e => rfl
+    | panic => rfl
+    | unmodelled => rfl
+  | err e => rfl
+  | panic => rfl
+  | unmodelled => rfl
+
+theorem signLoop_hardened (bprot : Bytes) (payload ext : Option Bytes) :
+    ∀ (sgs : List SigV) (ss : List Signer),
+      signLoop bprot payload ext sgs (ss.map hardened) = signLoop bprot payload ext sgs ss
+  | [], _ => by unfold signLoop; rfl
+  | _ :: _, [] => by unfold signLoop; rfl
+  | sg :: sgs, s :: ss => by
+    rw [List.map_cons, signLoop, signLoop, signature_sign_hardened,
+      signLoop_hardened bprot payload ext sgs ss]
+
+theorem signmsg_sign_hardened (m : SignMsg) (ext : Option Bytes) (signers : List Signer) :
+    Sign.sign m ext (signers.map hardened) = Sign.sign m ext signers := by
+  unfold Sign.sign
+  simp only [List.length_map, signLoop_hardened]
+
+/-- COSE_Sign1 in memory, no assumption on signature lengths -/
+theorem sign1_then_verify_core (m : Sign1Msg) (ext : Option Bytes) (s : Signer) (v : Verifier)
+    (hm : MatchesCore s v) (hok : (Sign1.sign m ext s).out = .ok ()) :
+    (Sign1.verify (Sign1.sign m ext s).state ext v).1 = .ok () := by
+  rw [← sign1_sign_hardened] at hok ⊢
+  exact sign1_then_verify m ext _ v hm.hardened hok
+
+/-- COSE_Signature in memory, no assumption on signature lengths -/
+theorem signature_then_verify_core (sg : SigV) (s : Signer) (v : Verifier) (bprot : Bytes)
+    (payload ext : Option Bytes) (hm : MatchesCore s v)
+    (hok : (Signature.sign sg s bprot payload ext).out = .ok ()) :
+    (Signature.verify (Signature.sign sg s bprot payload ext).state v bprot payload ext).1
+      = .ok () := by
+  rw [← signature_sign_hardened] at hok ⊢
+  exact signature_then_verify sg _ v bprot payload ext hm.hardened hok
+
+/-- full countersignatures in memory, no assumption on signature lengths -/
+theorem countersign_then_verify_core (cs : SigV) (s : Signer) (v : Verifier) (parent : Parent)
+    (ext : Option Bytes) (hm : MatchesCore s v)
+    (hok : (Countersignature.sign cs s parent ext).out = .ok ()) :
+    (Countersignature.verify (Countersignature.sign cs s parent ext).state v parent ext).1
+      = .ok () := by
+  rw [← countersignature_sign_hardened] at hok ⊢
+  exact countersign_then_verify cs _ v parent ext hm.hardened hok
+
+/-- abbreviated countersignatures, no assumption on signature lengths -/
+theorem countersign0_then_verify_core (s : Signer) (v : Verifier) (parent : Parent)
+    (ext : Option Bytes) (sig : Bytes) (hm : MatchesCore s v)
+    (hok : (countersign0 s parent ext).1 = .ok sig) :
+    (verifyCountersign0 v parent ext sig).1 = .ok () ∧ sig ≠ [] := by
+  rw [← countersign0_hardened] at hok
+  exact ⟨countersign0_then_verify _ v parent ext sig hm.hardened hok,
+    countersign0_nonempty _ v parent ext sig hm.hardened hok⟩
+
+/-- COSE_Sign with any number of signers in memory, no assumption on signature lengths -/
+theorem signmsg_then_verify_core (m : SignMsg) (ext : Option Bytes) (signers : List Signer)
+    (verifiers : List Verifier) (hlen : signers.length = verifiers.length)
+    (hm : ∀ i (h1 : i < signers.length) (h2 : i < verifiers.length),
+      MatchesCore signers[i] verifiers[i])
+    (hok : (Sign.sign m ext signers).out = .ok ()) :
+    (Sign.verify (Sign.sign m ext signers).state ext verifiers).1 = .ok () := by
+  rw [← signmsg_sign_hardened] at hok ⊢
+  refine signmsg_then_verify m ext _ verifiers (by simpa using hlen) ?_ hok
+  intro i h1 h2
+  rw [List.getElem_map]
+  exact (hm i (by simpa using h1) h2).hardened
 
 end C01
